@@ -42,17 +42,83 @@ theorem new_eq (p : Nat) :
 theorem fresh_wf (p : Nat) (hp : 0 < p) (h8 : p * 8 ≤ isizeMax) : WF (fresh p : EfficiencyRatio F) :=
   ⟨hp, h8, by simp [fresh], hp, by simp [fresh], by simp [fresh]⟩
 
+/-- one iteration of either `for n in ..` loop: `(volatility, previous)` ↦ `(volatility + |previous - n|, n)` -/
+def volStep (acc : F × F) (n : F) : F × F :=
+  (Scalar.add acc.1 (Scalar.abs (Scalar.sub acc.2 n)), n)
+
+theorem volStep_def :
+    (volStep : F × F → F → F × F) =
+      fun acc x => (Scalar.add acc.fst (Scalar.abs (Scalar.sub acc.snd x)), x) := rfl
+
+/-- the volatility the two loops compute on a window `d` with cursor `index` and fill `count`,
+    starting from `previous = first`: first over `d[index..count]`, then over `d[0..index]` -/
+def volatility (d : Array F) (index count : Nat) (first : F) : Option F := do
+  let l1 ← slice d index count
+  let l2 ← slice d 0 index
+  let a := l1.foldl volStep (Scalar.lit 0 0, first)
+  pure (l2.foldl volStep (a.1, a.2)).1
+
+/-- the oldest value of the window, as read by `next` BEFORE the new input is stored -/
+def first (s : EfficiencyRatio F) : Option F :=
+  if s.period ≤ s.count then Rs.index s.deque s.index else Rs.index s.deque 0
+
+/-- the state after `next x` -/
+def step (s : EfficiencyRatio F) (x : F) : EfficiencyRatio F :=
+  { period := s.period,
+    index := if s.index + 1 < s.period then s.index + 1 else 0,
+    count := if s.period ≤ s.count then s.count else s.count + 1,
+    deque := s.deque.setIfInBounds s.index x }
+
+private theorem ite_pair {α β : Type} (c : Prop) [Decidable c] (a : α) (b b' : β) :
+    (if c then (a, b) else (a, b')) = (a, if c then b else b') := by
+  split <;> rfl
+
+/-- exact shape of `next` on a well-formed state -/
+theorem next_eq (s : EfficiencyRatio F) (x : F) (h : WF s) :
+    s.next x =
+      (first s).bind fun f =>
+      (volatility (step s x).deque (step s x).index (step s x).count f).bind fun vol =>
+      some (step s x,
+            if Scalar.beq vol (Scalar.lit 0 0) then Scalar.lit 1 0
+            else Scalar.div (Scalar.abs (Scalar.sub f x)) vol) := by
+  obtain ⟨hp, hs, hsz, hi, hc, hfl⟩ := h
+  have hm : isizeMax < usizeMax := by decide
+  unfold next first volatility step
+  by_cases c1 : s.index + 1 < s.period <;> by_cases c2 : s.period ≤ s.count <;>
+    simp (disch := first | omega | (simp only [Array.size_setIfInBounds]; omega))
+      [index_eq, setIndex_eq, uadd_eq, slice_eq, ite_pair, volStep_def, c1, c2] <;>
+    rfl
+
+/-- The zero-volatility guard: the output is `1` whenever the computed volatility tests equal
+    to `0`, and the division is only reached otherwise. -/
+theorem next_guard (s : EfficiencyRatio F) (x : F) (h : WF s) (f vol : F)
+    (hf : first s = some f)
+    (hv : volatility (step s x).deque (step s x).index (step s x).count f = some vol) :
+    s.next x =
+      some (step s x,
+            if Scalar.beq vol (Scalar.lit 0 0) then Scalar.lit 1 0
+            else Scalar.div (Scalar.abs (Scalar.sub f x)) vol) := by
+  rw [next_eq s x h, hf, Option.bind_some, hv, Option.bind_some]
+
+/-- on a well-formed state the oldest value and the volatility are always defined -/
+theorem first_volatility_total (s : EfficiencyRatio F) (x : F) (h : WF s) :
+    ∃ f vol, first s = some f ∧
+      volatility (step s x).deque (step s x).index (step s x).count f = some vol := by
+  obtain ⟨hp, hs, hsz, hi, hc, hfl⟩ := h
+  unfold first volatility step
+  by_cases c1 : s.index + 1 < s.period <;> by_cases c2 : s.period ≤ s.count <;>
+    simp (disch := first | omega | (simp only [Array.size_setIfInBounds]; omega))
+      [index_eq, slice_eq, c1, c2]
+
 /-- `next` never panics on a well-formed state, keeps it well-formed and keeps the period.
     (The two `for` loops are pure folds; only the two slice ranges matter.) -/
 theorem next_total (s : EfficiencyRatio F) (x : F) (h : WF s) :
     ∃ r, s.next x = some r ∧ WF r.1 ∧ r.1.period = s.period := by
-  obtain ⟨hp, hs, hsz, hi, hc, hf⟩ := h
-  have hm : isizeMax < usizeMax := by decide
-  unfold next
-  by_cases c1 : s.index + 1 < s.period <;> by_cases c2 : s.period ≤ s.count <;>
-    simp (disch := first | omega | (simp only [Array.size_setIfInBounds]; omega))
-      [index_eq, setIndex_eq, uadd_eq, slice_eq, c1, c2] <;>
-    constructor <;> simp_all <;> omega
+  obtain ⟨f, vol, hf, hv⟩ := first_volatility_total s x h
+  refine ⟨_, next_guard s x h f vol hf hv, ?_, rfl⟩
+  obtain ⟨hp, hs, hsz, hi, hc, hfl⟩ := h
+  constructor <;> simp only [step] <;> (try simp only [Array.size_setIfInBounds]) <;>
+    (try split) <;> (try split) <;> (try intro) <;> omega
 
 /-- the `fill` clause of `WF` is not decoration: on a (deserialised) state whose cursor is ahead
     of the count while the window is still filling, `next` panics in
